@@ -233,7 +233,8 @@ def gen_acts(rng):
 
 def weird_dirname(rng):
     w = "".join(rng.choice("abXY01._-:+=,@%^" + "  " + "\t<>|&;()") for _ in range(rng.randint(1, 8)))
-    w = w.strip(".") or "x"
+    # the version files of the database do not keep leading / trailing blanks of a directory (C16's business)
+    w = w.strip(". \t") or "x"
     return w
 
 
@@ -348,11 +349,24 @@ def parse_env0(out):
 TAIL = "\nprintf '\\0\\0C05-ENV-FOLLOWS\\0'\n/usr/bin/env -0\n"
 
 
+_CWD = None
+
+
+def shell_cwd():
+    """An empty scratch directory per worker process: texts outside the fragment contain unquoted `>`, which creates
+    files where the shell runs."""
+    global _CWD
+    if _CWD is None or not os.path.isdir(_CWD):
+        _CWD = common.scratch("c05cwd")
+    return _CWD
+
+
 def run_shells(env_pairs, text, how="c", scratch=None):
     """Evaluate text in dash and bash started with exactly env_pairs; returns {shell: env dict | None}.
     how='c': `sh -c text`; how='source': text written to a file that the shell sources with `.`"""
     env = {k: v for k, v in env_pairs}
     res = {}
+    cwd = shell_cwd()
     for name, argv in SHELLS:
         if how == "source":
             path = os.path.join(scratch, "emitted.sh")
@@ -363,7 +377,7 @@ def run_shells(env_pairs, text, how="c", scratch=None):
             cmd = argv + ["-c", text + TAIL]
         try:
             p = subprocess.run(cmd, env=env, stdout=subprocess.PIPE, stderr=subprocess.DEVNULL, stdin=subprocess.DEVNULL,
-                               timeout=20)
+                               timeout=20, cwd=cwd)
             res[name] = parse_env0(p.stdout)
         except (subprocess.TimeoutExpired, ValueError, OSError) as e:
             res[name] = "ERR:" + type(e).__name__
@@ -565,6 +579,8 @@ def run_chunk(cases):
     res = [impl_case(c) for c in cases]
     if _E is not None:
         common.rmtree(_E._c05root)
+    if _CWD is not None:
+        common.rmtree(_CWD)
     return res
 
 
